@@ -246,7 +246,27 @@ def rule_w3(ctx: Ctx) -> None:
         raise AnalysisError(f"{rb.where}: open() not found")
     rsuffix = fstring_suffix(opens[0].args[0])
     kinds = set()
+    from ..core import flow_env as _flow_env, subst_names as _subst
+
+    # every request to write reaches both writes: nothing before them can leave the function
+    pending = {id(n) for n, _a, _w in names}
+    for st in wb.body:
+        if not pending:
+            break
+        direct = isinstance(st, ast.Expr) and id(st.value) in pending
+        if direct:
+            pending.discard(id(st.value))
+            continue
+        inner = [n for n in ast.walk(st) if id(n) in pending]
+        if inner:
+            raise AnalysisError(f"{wb.where}: a data file is written conditionally (inside `{unparse(st).splitlines()[0][:60]}`); not decided")
+        leaves = [x for x in walk_no_nested(st) if isinstance(x, (ast.Return, ast.Raise))] if not isinstance(st, (ast.FunctionDef,)) else []
+        if leaves:
+            ctx.violation("C20-W5", wb, st, f"write_bisc_files can return before writing (`{unparse(st).splitlines()[0][:70]}` ...): the data of this request is dropped and a later read returns what an earlier request wrote")
+            return
+    ctx.ok("C20-W5", wb.where, "both data files are written on every path through write_bisc_files (no exit before the two writes)", wb.node, wb)
     for node, name, what in names:
+        name = _subst(name, _flow_env(wb, node))
         suf = fstring_suffix(name)
         if suf is None or rsuffix is None:
             raise AnalysisError("file name expressions not recognised")
@@ -519,6 +539,10 @@ def _variants():
 
     BI, PW = "permuta/bisc/bisc.py", "permuta/permutils/pin_words.py"
     return [
+        V("write-once-guard", insert_stmt("permuta/bisc/bisc.py", "write_bisc_files", "good, bad = create_bisc_input(n, prop)", "if os.path.isfile(f'{info}_good_len{n}.json') and os.path.isfile(f'{info}_bad_len{n}.json'):\n    return", "before"), "fire", "C20-W5"),
+        V("file-names-in-locals", [insert_stmt("permuta/bisc/bisc.py", "write_bisc_files", "good, bad = create_bisc_input(n, prop)", "good_file, bad_file = f'{info}_good_len{n}.json', f'{info}_bad_len{n}.json'", "before"),
+                                   replace_expr("permuta/bisc/bisc.py", "write_bisc_files", "write_json_to_file(good, f'{info}_good_len{n}.json')", "write_json_to_file(good, good_file)"),
+                                   replace_expr("permuta/bisc/bisc.py", "write_bisc_files", "write_json_to_file(bad, f'{info}_bad_len{n}.json')", "write_json_to_file(bad, bad_file)")], "silent"),
         V("json-writer-append", replace_expr(BI, "write_json_to_file", "open(file_name, 'w')", "open(file_name, 'a+')"), "fire", "C20-W1", "the original defect"),
         V("json-writer-rplus", replace_expr(BI, "write_json_to_file", "open(file_name, 'w')", "open(file_name, 'r+')"), "fire", "C20-W1"),
         V("dfa-writer-append", replace_expr(PW, "PinWords.store_dfa_for_perm", "open(str(path), 'w')", "open(str(path), 'a')"), "fire", "C20-W1"),
@@ -606,3 +630,4 @@ def run(ctx: Ctx) -> None:  # noqa: F811
 
 
 FLOORS["C20-M1"] = 2
+FLOORS["C20-W5"] = 1
